@@ -432,6 +432,7 @@ func (r *transport) handleStaleWhileRevalidate(
 	// Open a discussion at github.com/bartventer/httpcache/issues if your use case requires
 	// guaranteed completion.
 	go r.backgroundRevalidate(req2, stored, urlKey, freshness, ccReq)
+	internal.SetAgeHeader(stored.Data, r.clock, freshness.Age)
 	internal.CacheStatusStale.ApplyTo(stored.Data.Header)
 	r.logger.LogCacheStaleRevalidate(req, urlKey, internal.MiscFunc(func() internal.Misc {
 		return internal.Misc{
